@@ -35,15 +35,15 @@ class dtype:
 
     @property
     def kind(self):
-        return self.type._kind
+        return "u" if getattr(self.type, "_unsigned", False) else self.type._kind
 
     @property
     def itemsize(self):
-        return {"bool": 1, "int16": 2, "int32": 4, "int64": 8, "float16": 2, "float32": 4, "float64": 8, "float128": 16}[self.name]
+        return {"bool": 1, "int16": 2, "int32": 4, "int64": 8, "uint16": 2, "uint32": 4, "uint64": 8, "float16": 2, "float32": 4, "float64": 8, "float128": 16}[self.name]
 
     @property
     def char(self):
-        return {"bool": "?", "int16": "h", "int32": "i", "int64": "l", "float16": "e", "float32": "f", "float64": "d", "float128": "g"}[self.name]
+        return {"bool": "?", "int16": "h", "int32": "i", "int64": "l", "uint16": "H", "uint32": "I", "uint64": "L", "float16": "e", "float32": "f", "float64": "d", "float128": "g"}[self.name]
 
     def __eq__(self, o):
         if o is None:
@@ -101,7 +101,7 @@ def _dtype_cls(spec):
         return S.float64
     if isinstance(spec, str):
         names = {"int": S.int64, "float": S.float64, "bool": S.bool_, "double": S.float64, "i8": S.int64, "f8": S.float64,
-                 "i4": S.int32, "i2": S.int16, "f4": S.float32, "f2": S.float16, "<f8": S.float64, "<i8": S.int64, "long": S.int64,
+                 "i4": S.int32, "i2": S.int16, "u2": S.uint16, "u4": S.uint32, "u8": S.uint64, "f4": S.float32, "f2": S.float16, "<f8": S.float64, "<i8": S.int64, "long": S.int64,
                  "int_": S.int64, "float_": S.float64}
         if spec in S.BY_NAME:
             return S.BY_NAME[spec]
@@ -783,7 +783,7 @@ class ndarray:
     def sum(self, axis=None, dtype=None, **kw):
         cls = self.dtype.type
         if cls._kind in "bi":
-            cls = S.int64
+            cls = S.uint64 if getattr(cls, "_unsigned", False) else S.int64   # numpy accumulates small integers in the platform (u)int
 
         def f(items):
             r = cast_scalar(items[0], cls)
@@ -799,7 +799,7 @@ class ndarray:
     def prod(self, axis=None, **kw):
         cls = self.dtype.type
         if cls._kind in "bi":
-            cls = S.int64
+            cls = S.uint64 if getattr(cls, "_unsigned", False) else S.int64   # numpy accumulates small integers in the platform (u)int
 
         def f(items):
             r = cast_scalar(items[0], cls)
@@ -812,7 +812,7 @@ class ndarray:
     def cumsum(self, axis=None, dtype=None, **kw):
         cls = self.dtype.type
         if cls._kind in "bi":
-            cls = S.int64
+            cls = S.uint64 if getattr(cls, "_unsigned", False) else S.int64   # numpy accumulates small integers in the platform (u)int
         if dtype is not None:
             cls = globals()["dtype"](dtype).type
         if axis is None:
@@ -943,8 +943,8 @@ def _norm_axis(a, ndim):
 
 
 def _same_kind(res, target):
-    order = {"b": 0, "i": 1, "f": 2}
-    return order[res._kind] <= order[target._kind]
+    order = {"b": 0, "u": 1, "i": 2, "f": 3}
+    return order[dtype(res).kind] <= order[dtype(target).kind]
 
 
 def _bshape(a, b):
